@@ -312,6 +312,11 @@ def run_case (case, rep):
       fire("port stats probe not answered", repr([m["name"] for m in ms]))
       return True
     rep.count("counters_compared")
+    if sorted(e["port_no"] for e in ms[0]["body"]) != sorted(rig.tx):
+      fire("port stats reply does not list every port exactly once",
+           "ports %r, the switch has %r" %
+           (sorted(e["port_no"] for e in ms[0]["body"]), sorted(rig.tx)))
+      return True
     for e in ms[0]["body"]:
       p = e["port_no"]
       if (e["tx_packets"], e["tx_bytes"]) != tuple(rig.tx[p]):
@@ -361,8 +366,11 @@ def gen_action (rng, allow_table):
     return dict(type=0, port=p,
                 max_len=rng.choice([0, 64, 0xffff]) if p == OA.OFPP_CONTROLLER
                 else 0)
-  if t == 1: return dict(type=1, vlan_vid=rng.choice([0, 1, 100, 4095]))
-  if t == 2: return dict(type=2, vlan_pcp=rng.choice([0, 1, 7]))
+  # (the wire fields are 16 and 8 bits wide; only 12 and 3 of them are the id
+  #  and the priority - the rest must not leak into the tag)
+  if t == 1: return dict(type=1, vlan_vid=rng.choice([0, 1, 100, 4095, 4095, 0x1001,
+                                                      0x1fff, 0x8005, 0xffff]))
+  if t == 2: return dict(type=2, vlan_pcp=rng.choice([0, 1, 7, 7, 8, 0x0f, 0xff]))
   if t == 3: return dict(type=3)
   if t in (4, 5):
     return dict(type=t, dl_addr=rng.choice([bytes.fromhex("0a0b0c0d0e0f"),
@@ -379,7 +387,8 @@ def gen_case (rng):
   via = rng.choice(["packet_out", "flow", "flow"])
   kind = rng.choice(["tcp", "udp", "icmp", "arp_req", "other", "tcp_opts",
                      "ipother", "frag_later", "frag_first", "tcp", "udp",
-                     "icmp_quote", "gre_ip"])
+                     "icmp_quote", "gre_ip", "llc", "snap0", "snapx", "snap_ip",
+                     "qinq", "arp_rep", "lldp"])
   dst = None
   if rng.random() < 0.1: dst = OA.STP_MAC
   raw, desc = framegen.gen_frame(rng, kind, pad=False, dst=dst,
